@@ -289,7 +289,9 @@ Definition enc_case (mode : Z) (lines : list str) : list Z :=
 Example D3_witness_on_dumps :
   let bad := lit "1,1,0,2,0,B|100:100|L|200:0|P|x:0,1,300" in
   let good := lit "1,1,0,2,0,L|50:50,1,50" in
-  firstn 2 (Drv14.run_c14 (enc_case 0 [bad; good])) = [1; 0] /  firstn 1 (Drv14.run_c14 (enc_case 0 [good])) = [0] /  skipn 2 (Drv14.run_c14 (enc_case 0 [bad; good])) <> skipn 1 (Drv14.run_c14 (enc_case 0 [good])).
+  firstn 2 (Drv14.run_c14 (enc_case 0 [bad; good])) = [1; 0] /\
+  firstn 1 (Drv14.run_c14 (enc_case 0 [good])) = [0] /\
+  skipn 2 (Drv14.run_c14 (enc_case 0 [bad; good])) <> skipn 1 (Drv14.run_c14 (enc_case 0 [good])).
 Proof. repeat split; vm_compute; try reflexivity. discriminate. Qed.
 
 (* [vertices] is scratch: whatever it holds, the outcome and every other field are the same *)
